@@ -235,6 +235,21 @@ def check_gctm(pc, rng):
         if e_out > 5e-2 and e_out > e_start:
             bad.append(("GCTM:moments-worse-than-starting-guess", dict(N=N, L=L, rel_out=float(e_out), rel_start=float(e_start), h=hh.tolist(), cn2=cc.tolist())))
             break
+    # a surface layer at exactly 0 m that sits alone in the lowest slab / dominates the profile: the optimum has a layer ON the bound
+    # h = 0 (L <= 2, where the unchanged code reaches 1e-5)
+    for label, (hg, pg) in (("surface-layer-alone-in-lowest-slab", (np.array([0.0, 4000.0, 5000.0, 6500.0, 8000.0, 9000.0, 11000.0, 12000.0]),
+                                                                     np.array([6.0, 1.0, 2.0, 1.0, 1.5, 1.0, 0.5, 0.3]) * 1e-14)),
+                            ("dominant-ground-layer", (np.array([0.0, 2500.0, 3000.0, 5000.0, 7000.0, 10000.0, 13000.0]),
+                                                        np.array([50.0, 1.0, 1.0, 2.0, 1.0, 1.0, 0.5]) * 1e-14))):
+        for L in (1, 2):
+            out = pc.GCTM(hg.copy(), pg.copy(), L)
+            hh, cc = np.asarray(out[0], float), np.asarray(out[1], float)
+            n += 1
+            err = max(abs((cc * (hh / 1e4) ** k).sum() - (pg * (hg / 1e4) ** k).sum()) / (pg * (hg / 1e4) ** k).sum() for k in range(2 * L - 1)) \
+                if hh.shape == (L,) and np.all(np.isfinite(hh)) and np.all(np.isfinite(cc)) else float("inf")
+            if not err <= 1e-3:
+                bad.append(("GCTM:moments-not-reproduced:" + label, dict(L=L, rel=float(err), h=hh.tolist(), cn2=cc.tolist())))
+                break
     # the optional scalings are numerical conditioning only: the profile in kilometres with h_scaling=10, a shallow profile with
     # h_scaling=5000, strengths re-scaled with cn2_scaling - the returned layers must describe the same (re-scaled) profile
     h = np.linspace(0.0, 15000.0, 14)
